@@ -95,9 +95,12 @@ func (c *Home) V1_Get(a *RArg) (string, *erpc.Status) {
 // (the documented rows AaBb and Aa__Bb): registering it must report a conflict.
 type Dup struct{ erpc.CallCtx }
 
-func (c *Dup) GetItem(a *RArg) (string, *erpc.Status)   { hit("Dup.GetItem"); return "Dup.GetItem", nil }
-func (c *Dup) Get__Item(a *RArg) (string, *erpc.Status) { hit("Dup.Get__Item"); return "Dup.Get__Item", nil }
-func (c *Dup) Other(a *RArg) (string, *erpc.Status)     { hit("Dup.Other"); return "Dup.Other", nil }
+func (c *Dup) GetItem(a *RArg) (string, *erpc.Status) { hit("Dup.GetItem"); return "Dup.GetItem", nil }
+func (c *Dup) Get__Item(a *RArg) (string, *erpc.Status) {
+	hit("Dup.Get__Item")
+	return "Dup.Get__Item", nil
+}
+func (c *Dup) Other(a *RArg) (string, *erpc.Status) { hit("Dup.Other"); return "Dup.Other", nil }
 
 // PDup: the same for push controllers.
 type PDup struct{ erpc.PushCtx }
@@ -277,7 +280,10 @@ func runC10(c c10Case) []string {
 	}
 	callNS, pushNS := map[string]string{}, map[string]string{} // name -> handler identity
 	if c.UnknownCall {
-		srv.SetUnknownCall(func(ctx erpc.UnknownCallCtx) (interface{}, *erpc.Status) { hit("<unknown-call>"); return "<unknown-call>", nil })
+		srv.SetUnknownCall(func(ctx erpc.UnknownCallCtx) (interface{}, *erpc.Status) {
+			hit("<unknown-call>")
+			return "<unknown-call>", nil
+		})
 	}
 	if c.UnknownPush {
 		srv.SetUnknownPush(func(ctx erpc.UnknownPushCtx) *erpc.Status { hit("<unknown-push>"); return nil })
